@@ -21,7 +21,7 @@ def run(ctx):
                         timeout_s=3000)
     ctx.spec_mutant("ModelLifeMC", "ModelLife_MC_asfound.cfg", violated="ExitClean")
     blocks = ctx.dump_blocks(r, None)
-    maxcalls = 2 if ctx.quick else 3
+    maxcalls = 2
     hists = {}
     singles = {}
     import re
@@ -49,16 +49,22 @@ def run(ctx):
         k = 700 if ctx.quick else 40000
         full = rng.sample(full, min(k, len(full)))
     allh = [list(h) for h in singles] + [list(h) for h in full]
+    if not ctx.quick:
+        # longer histories (3 and 4 calls): compositions of the explored single calls -- StartsClean / ExitClean make every call
+        # start from the same abstract state, so any sequence of explored calls is a behaviour of the model
+        for _ in range(6000):
+            allh.append([rng.choice(singles)[0] for _ in range(rng.choice([3, 3, 4]))])
     # dry run: the PROGRAMS mirror in the worker must agree with the code (and with the spec's table)
     dry = ctx.run_impl("c07", [dict(id=0, mode="dry")], nproc=1)[0]["dry"]
     for f, d in dry.items():
         if d["out"] != "returned" or d["counts"].get("forward", 0) != d["want_forward"] or \
                 d["counts"].get("backward", 0) != d["want_backward"]:
             raise core.Machinery("program table out of date for %s: %s" % (f, d))
-    shards = core.NCPU
-    parts = [allh[k::shards] for k in range(shards)]
+    chunk = 40
+    parts = [allh[k:k + chunk] for k in range(0, len(allh), chunk)]
+    shards = len(parts)
     out = ctx.run_impl("c07", [dict(id=k, mode="hist", hists=[[[f, list(cp)] for (f, cp) in h] for h in parts[k]])
-                               for k in range(shards)], nproc=shards, timeout_s=3000)
+                               for k in range(shards)], nproc=core.NCPU, timeout_s=3000, env=dict(VERIF_CASE_TIMEOUT=600))
     events, unreal, nid = [], {}, 1
     meta = {}
     for k in range(shards):
